@@ -1,0 +1,99 @@
+//go:build verif
+
+// Hooks for the verification harness in /verif. Add-only; compiled only with
+// the build tag "verif". Nothing here changes the behaviour of existing code:
+// the functions are thin exports of unexported helpers and constructors.
+
+package websocket
+
+import (
+	"bufio"
+	"context"
+	"io"
+	"net"
+	"net/http"
+	"net/url"
+)
+
+// VerifNewConn exposes newConn.
+func VerifNewConn(conn net.Conn, isServer bool, readBufferSize, writeBufferSize int, pool BufferPool, br *bufio.Reader, writeBuf []byte) *Conn {
+	return newConn(conn, isServer, readBufferSize, writeBufferSize, pool, br, writeBuf)
+}
+
+// VerifSetMaskRand swaps the mask key source and returns a restore function.
+func VerifSetMaskRand(r io.Reader) (restore func()) {
+	old := maskRand
+	maskRand = r
+	return func() { maskRand = old }
+}
+
+// VerifSetCompression marks the connection as having negotiated
+// permessage-deflate, exactly as Upgrade and DialContext do. When wrap is not
+// nil the writer handed to compressNoContextTakeover is wrap(w), which lets
+// the harness observe what the compressor pushes into the message writer.
+func VerifSetCompression(c *Conn, wrap func(io.WriteCloser) io.WriteCloser) {
+	if wrap == nil {
+		c.newCompressionWriter = compressNoContextTakeover
+	} else {
+		c.newCompressionWriter = func(w io.WriteCloser, level int) io.WriteCloser {
+			return compressNoContextTakeover(wrap(w), level)
+		}
+	}
+	c.newDecompressionReader = decompressNoContextTakeover
+}
+
+// VerifWrapCompression interposes wrap on an already negotiated connection
+// (one returned by Upgrade or Dial); it is a no-op when compression was not
+// negotiated.
+func VerifWrapCompression(c *Conn, wrap func(io.WriteCloser) io.WriteCloser) bool {
+	if c.newCompressionWriter == nil {
+		return false
+	}
+	inner := c.newCompressionWriter
+	c.newCompressionWriter = func(w io.WriteCloser, level int) io.WriteCloser {
+		return inner(wrap(w), level)
+	}
+	return true
+}
+
+// VerifNegotiated reports (compression writer set, decompression reader set).
+func VerifNegotiated(c *Conn) (bool, bool) {
+	return c.newCompressionWriter != nil, c.newDecompressionReader != nil
+}
+
+// VerifWriteBufLen reports len(c.writeBuf) and c.writeBufSize.
+func VerifWriteBufLen(c *Conn) (int, int) { return len(c.writeBuf), c.writeBufSize }
+
+// VerifReaderSize reports the size of the connection's bufio.Reader.
+func VerifReaderSize(c *Conn) int { return c.br.Size() }
+
+// VerifMaskBytes exposes maskBytes.
+func VerifMaskBytes(key [4]byte, pos int, b []byte) int { return maskBytes(key, pos, b) }
+
+// VerifTruncWriter exposes truncWriter: it returns the writer and a function
+// reporting the held-back bytes (w.p[:w.n]).
+func VerifTruncWriter(w io.WriteCloser) (io.Writer, func() []byte) {
+	tw := &truncWriter{w: w}
+	return tw, func() []byte { return append([]byte(nil), tw.p[:tw.n]...) }
+}
+
+func VerifTokenListContainsValue(h http.Header, name, value string) bool {
+	return tokenListContainsValue(h, name, value)
+}
+func VerifParseExtensions(h http.Header) []map[string]string { return parseExtensions(h) }
+func VerifEqualASCIIFold(s, t string) bool                  { return equalASCIIFold(s, t) }
+func VerifCheckSameOrigin(r *http.Request) bool             { return checkSameOrigin(r) }
+func VerifIsValidChallengeKey(s string) bool                { return isValidChallengeKey(s) }
+func VerifComputeAcceptKey(s string) string                 { return computeAcceptKey(s) }
+func VerifHostPortNoPort(u *url.URL) (string, string)       { return hostPortNoPort(u) }
+func VerifNextToken(s string) (string, string)              { return nextToken(s) }
+func VerifNextTokenOrQuoted(s string) (string, string)      { return nextTokenOrQuoted(s) }
+func VerifSkipSpace(s string) string                        { return skipSpace(s) }
+func VerifIsValidReceivedCloseCode(code int) bool           { return isValidReceivedCloseCode(code) }
+func VerifIsTokenOctet(b byte) bool                         { return isTokenOctet[b] }
+
+// VerifHTTPProxyDial runs httpProxyDialer.DialContext with the given forward
+// dial function.
+func VerifHTTPProxyDial(ctx context.Context, proxyURL *url.URL, forward func(ctx context.Context, network, addr string) (net.Conn, error), addr string) (net.Conn, error) {
+	return (&httpProxyDialer{proxyURL: proxyURL, forwardDial: forward}).DialContext(ctx, "tcp", addr)
+}
